@@ -115,7 +115,8 @@ def gen_program(rng: random.Random, max_depth: int = 3) -> list[Any]:
             elif r < 0.88 and depth < max_depth:
                 sid = next(counter)
                 kind = rng.choice(["move_on", "move_on", "timeout", "open"])
-                d = INF if kind == "open" else rng.choice([0, 1, 2, 3, 4, 6])
+                # (a deadline "not known yet": timeout(inf) / move_on_after(inf), to be set later by reschedule() or ended by cancel())
+                d = INF if kind == "open" else rng.choice([0, 1, 2, 3, 4, 6, INF])
                 body = block(depth + 1, active + [sid], in_shield)
                 out.append(("scope", sid, kind, d, body, "raises") if rng.random() < 0.15 else ("scope", sid, kind, d, body))
             elif depth < max_depth and not in_shield:
@@ -144,6 +145,8 @@ async def execute(ast: list[Any], ext: int) -> list[dict[str, Any]]:
     scopes: dict[int, Any] = {}
     exited: set[int] = set()
 
+    nzero = [0]
+
     def tick() -> int:
         return int(round((loop.time() - t0) / TICK))
 
@@ -154,7 +157,14 @@ async def execute(ast: list[Any], ext: int) -> list[dict[str, Any]]:
         for st in block:
             if st[0] == "sleep":
                 if st[1] == 0:
-                    await backend.coro_yield()
+                    # a bare checkpoint, in the three spellings the backend offers
+                    nzero[0] += 1
+                    if nzero[0] % 3 == 1:
+                        await backend.coro_yield()
+                    elif nzero[0] % 3 == 2:
+                        await backend.sleep(0)
+                    else:
+                        await backend.sleep_until(loop.time() - 1.0)
                 else:
                     await backend.sleep(st[1] * TICK)
             elif st[0] == "mark":
@@ -216,9 +226,9 @@ async def execute(ast: list[Any], ext: int) -> list[dict[str, Any]]:
                 sid, kind, d, body = st[1:5]
                 raises = len(st) > 5
                 if kind == "move_on":
-                    cm = backend.move_on_after(d * TICK)
+                    cm = backend.move_on_after(math.inf if d >= INF else d * TICK)
                 elif kind == "timeout":
-                    cm = backend.timeout(d * TICK)
+                    cm = backend.timeout(math.inf if d >= INF else d * TICK)
                 else:
                     cm = backend.open_cancel_scope()
                 log("enter", sid)
@@ -405,6 +415,54 @@ def _model(chk: Check, quick: bool) -> bool:
     return True
 
 
+async def _sleep_forever_siblings(how: str) -> list[str]:
+    """Two children of one task group, each in sleep_forever() under a scope of its own: each is interrupted at its own deadline (or by its
+    own cancel()), neither by the other's."""
+    from easynetwork.lowlevel.api_async.backend._asyncio.backend import AsyncIOBackend
+
+    backend = AsyncIOBackend()
+    loop = asyncio.get_running_loop()
+    t0 = loop.time()
+    res: dict[str, Any] = {}
+    scopes: dict[str, Any] = {}
+
+    async def child(name: str, delay: float) -> None:
+        try:
+            with backend.move_on_after(delay) as scope:
+                scopes[name] = scope
+                await backend.sleep_forever()
+            res[name] = ("left its scope", bool(scope.cancelled_caught()), round(loop.time() - t0, 2))
+        except BaseException as exc:  # noqa: BLE001
+            res[name] = ("escaped: " + type(exc).__name__, False, round(loop.time() - t0, 2))
+            raise
+
+    async def main() -> None:
+        async with backend.create_task_group() as tg:
+            tg.start_soon(child, "A", 0.5 if how == "deadline" else 100.0)
+            tg.start_soon(child, "B", 2.0)
+            if how == "cancel":
+                await backend.sleep(0.5)
+                scopes["A"].cancel()
+
+    task = loop.create_task(main())
+    if how == "external":
+        loop.call_later(0.5, task.cancel)
+    await asyncio.wait([task], timeout=50)
+    problems = []
+    if how == "external":
+        if not task.cancelled():
+            problems.append("the externally cancelled group did not end cancelled")
+    else:
+        if res.get("A") != ("left its scope", True, 0.5):
+            problems.append(f"A (interrupted at 0.5 s): {res.get('A')}")
+        if res.get("B") != ("left its scope", True, 2.0):
+            problems.append(f"B (own deadline 2.0 s, nobody cancelled it before): {res.get('B')}")
+    if not task.done():
+        task.cancel()
+        problems.append("the task group never ended")
+    return problems
+
+
 def _run_one(case: tuple[list[Any], int]) -> list[dict[str, Any]]:
     ast, ext = case
     try:
@@ -480,6 +538,19 @@ def run(chk: Check) -> None:
             f"cancel scopes: not a behaviour of the reference semantics (event #{pos}: {failing}) -- {t['meta']} events={[(e['ev'], e['id'], e['caught'], e['cc'], e['exc'], e['t']) for e in evs]}",
             {"kind": "scope_program", "ast": t["ast"], "ext": ext, "events": evs, "rejected_at": pos},
         )
+    for how in ("deadline", "cancel", "external"):
+        try:
+            problems = vloop.run(lambda: _sleep_forever_siblings(how))
+        except vloop.VirtualDeadlock as exc:
+            problems = [str(exc)]
+        chk.traces += 1
+        chk.distinct.add(("sleep_forever_siblings", how))
+        if problems:
+            chk.violation(
+                {"kind": "siblings", "what": "sleep_forever", "how": how},
+                f"two children of a task group in sleep_forever(), each under a scope of its own ({how}): {problems}",
+                {"kind": "sleep_forever_siblings", "how": how},
+            )
     chk.extra["programs_with_task_group"] = sum(1 for t in rec if "group{" in t["meta"])
     chk.not_covered.append("task groups with several children or children that open scopes of their own (one sleeping-then-marking child per group)")
     chk.assumptions += [
